@@ -6,6 +6,7 @@
  *          depth=N  mode=seq|ramp
  */
 #include <inttypes.h>
+#include <math.h>
 #include <stdio.h>
 #include <stdlib.h>
 #include <string.h>
@@ -44,7 +45,7 @@ static int o_exp, o_depth;
 static int keymode; /* 0 auto 1 caller 2 mixed */
 static struct cmi_hashheap hh;
 
-static const double KD[4] = { 0.0, 1.0, 0.0, 2.0 };
+static double KD[4] = { 0.0, 1.0, 0.0, 2.0 };
 static const int64_t KI[4] = { 0, 0, 1, -1 };
 
 static uint64_t ckeys[5]; /* colliding caller keys */
@@ -61,8 +62,13 @@ static void tag_of(const struct ent *e, struct cmi_heap_tag *t)
     memcpy(t->item, e->pl, sizeof t->item);
 }
 
+static bool independent_default;
 static bool precedes(const struct ent *a, const struct ent *b)
 {
+    if (independent_default) {
+        /* the default ordering is documented: increasing dsortkey, nothing else */
+        return a->d < b->d;
+    }
     struct cmi_heap_tag ta, tb;
     tag_of(a, &ta);
     tag_of(b, &tb);
@@ -650,6 +656,15 @@ static void ginit(void)
         else if (top == 0 && n0 < 2) {
             ckeys[3 + n0++] = k;
         }
+    }
+    if (vx_opt_int("nearkeys", 0)) {
+        /* sort keys that differ in the last place only: 0.3 and 0.1 + 0.2, 1 and the next number after it */
+        volatile double a = 0.1, b = 0.2;
+        KD[0] = 0.3;
+        KD[1] = a + b;
+        KD[2] = 1.0;
+        KD[3] = nextafter(1.0, 2.0);
+        independent_default = !strcmp(ordname, "default");
     }
     if (vx_opt_int("ekeys", 0)) {
         /* caller-supplied keys at the ends of the key range: the largest two keys, and a small one that the
